@@ -8,6 +8,7 @@ import JunoModel.C12.ProofsNonVacuity
 import JunoModel.C12.ProofsNetwork
 import JunoModel.C12.ProofsNonVacuityNet
 import JunoModel.C12.ProofsRunTrace
+import JunoModel.C12.ProofsCommitLast
 /-!
 C12 — property theorems (statements only; the proofs are in `Proofs*.lean`).
 
@@ -175,6 +176,16 @@ loop terminates. -/
 theorem loop_fuel_enough (env : Env) (rr : Option Round) (m : Machine) (acc : List Action) :
     (Machine.processLoopAux env rr loopFuel m acc).2.2 = true :=
   loop_fuel_enough' env rr m acc
+
+/-- **A Commit is the last action of every list a call returns**, and the height is then not
+started — for every machine state and every input, no hypothesis. This is what makes the driver
+model's `hasCommit` (a Commit anywhere in the list) equal to what `driver.execute` reports (it returns
+at the first Commit and drops the rest of the list: there is no rest; in `ProcessSync` the precommits
+after a commit are ignored because the height is not started). -/
+theorem commit_is_the_last_action (env : Env) (m : Machine) (i : Input) :
+    (∀ pre post p, (m.step env i).2 = pre ++ Action.commit p :: post → post = []) ∧
+    ((∃ p, Action.commit p ∈ (m.step env i).2) → (m.step env i).1.isHeightStarted = false) :=
+  step_commit_last env m i
 
 /-- **The vote counter is sound.** If every ballot and proposal in the machine's vote counter is
 justified by the global history (`Sim.just`: its sender is Byzantine or really sent it), then every
